@@ -432,3 +432,193 @@ Proof.
       try first [assumption | reflexivity | discriminate | constructor].
   - constructor; proj; cbn [cleanedn pubn]; try assumption. exists es0; exact Hes0.
 Qed.
+
+(** * Histories: lockstep lifetimes separated by quiescent kill/restart cycles *)
+
+(** no manual FLUSH; [LCrash] only in a quiescent state and immediately followed by
+    [LRestart]; [LRestart] only directly after [LCrash]; inside a lifetime the WAL
+    thread's program order and "WAL idle at every log-file deletion" ([step_ok]) *)
+Fixpoint lockstep_q (s : shard) (ls : list label) : bool :=
+  match ls with
+  | [] => true
+  | LCrash :: r =>
+      match r with
+      | LRestart :: r' => quiescentb s && lockstep_q (restart (crash s)) r'
+      | _ => false
+      end
+  | l :: r => step_ok s l && lockstep_q (step s l) r
+  end.
+
+Lemma stored_cons : forall l r, stored (l :: r) = stored_by l ++ stored r.
+Proof. intros [e| | | |f| |] r; reflexivity. Qed.
+
+Lemma lockq_run : forall n ls, (length ls <= n)%nat -> forall c P D s, 0 < c ->
+  lockq_inv c P D s -> lockstep_q s ls = true ->
+  lockq_inv c (P ++ stored ls) (D ++ durable_from (walq s) ls) (run s ls).
+Proof.
+  induction n as [|n IH]; intros ls Hn c P D s Hc HI Hq.
+  { destruct ls; [|cbn [length] in Hn; lia]. cbn [stored durable_from run fold_left]. rewrite !app_nil_r. exact HI. }
+  destruct ls as [|l r]; [cbn [stored durable_from run fold_left]; rewrite !app_nil_r; exact HI|].
+  cbn [length] in Hn.
+  assert (Hstep : step_ok s l && lockstep_q (step s l) r = true ->
+                  lockq_inv c (P ++ stored (l :: r)) (D ++ durable_from (walq s) (l :: r)) (run s (l :: r))).
+  { intros H. apply andb_true_iff in H. destruct H as [H1 H2].
+    rewrite stored_cons. cbn [durable_from run fold_left]. rewrite !app_assoc, <- walq_step.
+    apply IH; [lia|exact Hc|apply lockq_step; assumption|exact H2]. }
+  destruct l as [e0| | | |f| |]; cbn [lockstep_q] in Hq; try (apply Hstep; exact Hq).
+  destruct r as [|l2 r']; [discriminate Hq|].
+  destruct l2 as [e0| | | |f| |]; try discriminate Hq.
+  apply andb_true_iff in Hq. destruct Hq as [Hq1 Hq2]. cbn [length] in Hn.
+  destruct (lockq_restart c P D s Hc HI Hq1) as (HI' & _).
+  cbn [stored durable_from written_by pend_step app run fold_left step].
+  assert (Ew : walq (restart (crash s)) = []) by reflexivity.
+  rewrite <- Ew. apply IH; [lia|exact Hc|exact HI'|exact Hq2].
+Qed.
+
+Lemma lockq_init : forall c, 0 < c -> lockq_inv c [] [] (init c).
+Proof. intros c Hc. split; [apply lock_init, Hc|]. split; [reflexivity|]. split; [reflexivity|apply ext_init]. Qed.
+
+Lemma lockq_reach : forall c ls, 0 < c -> lockstep_q (init c) ls = true ->
+  lockq_inv c (stored ls) (durable ls) (run (init c) ls).
+Proof.
+  intros c ls Hc Hq.
+  exact (lockq_run (length ls) ls (le_n _) c [] [] (init c) Hc (lockq_init c Hc) Hq).
+Qed.
+
+(** ** the theorems *)
+
+(** a kill + restart of the quiescent process changes nothing the lockstep depends on:
+    same next segment id, same log file id, same entry counter, which equals the fill
+    level of the recovered memtable; the recovered memtable is the old one; nothing is
+    pruned or unlinked; the invariant holds again *)
+Theorem quiescent_restart_keeps_lockstep : forall c ls, 0 < c ->
+  lockstep_q (init c) ls = true -> quiescentb (run (init c) ls) = true ->
+  let s := run (init c) ls in
+  let s' := restart (crash s) in
+  alloc0 s' = alloc0 s /\ wcur s' = wcur s /\ wcnt s' = wcnt s /\ mem s' = mem s /\
+  wcnt s' = len (mem s') /\ wcur s' = alloc0 s' /\
+  walfiles s' = walfiles s /\ dirs s' = dirs s /\ wlost s' = [] /\ wunlinked s' = false /\
+  lockq_inv c (stored ls) (durable ls) s'.
+Proof.
+  intros c ls Hc Hq Hqs s s'.
+  destruct (lockq_restart c _ _ s Hc (lockq_reach c ls Hc Hq) Hqs)
+    as (HI' & Ea & Ew & En & Em & Enm & Ef & Ed & Ewa & _).
+  fold s' in HI', Ea, Ew, En, Em, Enm, Ef, Ed.
+  pose proof HI' as HI0. destruct HI' as (H1 & H2 & H3 & H4).
+  refine (conj Ea (conj Ew (conj En (conj Em (conj Enm (conj _ (conj Ef (conj Ed (conj H3 (conj H2 HI0)))))))))).
+  rewrite Ea, Ew. exact Ewa.
+Qed.
+
+(** the invariant form: preserved by [LCrash; LRestart] from any quiescent state *)
+Theorem quiescent_restart_preserves_inv : forall c P D s, 0 < c ->
+  lockq_inv c P D s -> quiescentb s = true -> lockq_inv c P D (restart (crash s)).
+Proof. intros c P D s Hc HI Hq. exact (proj1 (lockq_restart c P D s Hc HI Hq)). Qed.
+
+(** nothing is ever pruned or unlinked in such a history, and the lockstep relations hold *)
+Theorem lockstep_q_no_prune : forall c ls, 0 < c -> lockstep_q (init c) ls = true ->
+  let s := run (init c) ls in
+  wlost s = [] /\ wunlinked s = false /\
+  len (durable ls) = wcur s * c + wcnt s /\ len (stored ls) = alloc0 s * c + len (mem s) /\
+  wcnt s <= c /\ len (mem s) < c /\
+  wal_get (walfiles s) (wcur s) = drop (wcur s * c) (durable ls) /\
+  mem s = drop (alloc0 s * c) (stored ls).
+Proof.
+  intros c ls Hc Hq s. destruct (lockq_reach c ls Hc Hq) as (HI & Hu & Hl & HE). fold s in HI, Hu, Hl, HE.
+  destruct (li_cnt _ _ _ _ HI). destruct (li_mem _ _ _ _ HI).
+  repeat split; try assumption; [apply (ei_get _ _ _ _ HE)|apply (ei_mem _ _ _ _ HE)].
+Qed.
+
+(** every durable event is read exactly once after any number of quiescent kill/restart
+    cycles interleaved with stores and background flushes *)
+Theorem exactly_once_across_quiescent_restarts : forall c ls e, 0 < c ->
+  lockstep_q (init c) ls = true -> NoDup (map ek (stored ls)) -> In e (durable ls) ->
+  occ e (select (restart (crash (run (init c) ls))) (euid e)) = 1%nat /\
+  occ e (select (restart (run (init c) ls)) (euid e)) = 1%nat /\
+  wlost (run (init c) ls) = [] /\ wunlinked (run (init c) ls) = false.
+Proof.
+  intros c ls e Hc Hq Hn He. destruct (lockstep_q_no_prune c ls Hc Hq) as (Hl & Hu & _).
+  destruct (survives_unless_pruned c ls e Hn He) as [H1 H2]; [rewrite Hl; intros []|].
+  repeat split; assumption.
+Qed.
+
+(** in every reachable state without flush job and with a drained WAL queue, the WAL file id
+    equals the next segment id and the writer's counter equals the memtable's fill level
+    (so the [wcnt < cap] conjunct of [quiescentb] is implied by the others) *)
+Theorem quiet_state_lockstep : forall c ls, 0 < c -> lockstep_q (init c) ls = true ->
+  let s := run (init c) ls in
+  jobs s = [] -> walq s = [] ->
+  wcur s = alloc0 s /\ wcnt s = len (mem s) /\ wcnt s < c.
+Proof.
+  intros c ls Hc Hq s Ej Eq. destruct (lockq_reach c ls Hc Hq) as (HI & _ & _ & HE). fold s in HI, HE.
+  destruct (li_cnt _ _ _ _ HI) as [Hcnt Hle]. destruct (li_mem _ _ _ _ HI) as [Hlen Hm].
+  pose proof (li_fifo _ _ _ _ HI) as Hf. rewrite Eq, app_nil_r in Hf.
+  pose proof (ei_clean _ _ _ _ HE) as Hcl. rewrite Ej in Hcl. cbn [cleanedn] in Hcl.
+  assert (Ew : wcur s = alloc0 s).
+  { destruct (N.eq_dec (wcur s) (alloc0 s)) as [E|E]; [exact E|exfalso].
+    assert (Hle2 : alloc0 s + 1 <= wcur s) by lia. pose proof (mul_le _ _ c Hle2). rewrite Hf in Hlen. lia. }
+  rewrite Hf, Ew in *. lia.
+Qed.
+
+(** ** corners *)
+
+(** [alloc0_from] only looks at ids inside the level-0 band: with more than
+    [level_span] level-0 segments the restart would not find the next id (hence the
+    bound in [quiescentb]; not reachable without compaction having run long before) *)
+Theorem alloc0_outside_band_refuted :
+  exists ids a, (forall i, In i ids -> i < a) /\ In (a - 1) ids /\ alloc0_from ids <> a.
+Proof.
+  exists [level_span], (level_span + 1). split; [|split].
+  - intros i [<-|[]]. vm_compute. reflexivity.
+  - left. reflexivity.
+  - vm_compute. discriminate.
+Qed.
+
+(** a kill while a flush job is queued (not quiescent) changes the allocator and the
+    memtable: the lockstep relations of [quiescent_restart_keeps_lockstep] fail *)
+Theorem nonquiescent_restart_refuted :
+  exists c ls, 0 < c /\ lockstep_q (init c) ls = true /\
+    let s := run (init c) ls in
+    quiescentb s = false /\ walq s = [] /\
+    (alloc0 (restart (crash s)) <> alloc0 s /\ mem (restart (crash s)) <> mem s /\
+     ~ (len (mem (restart (crash s))) < c)).
+Proof.
+  exists 2, [LStore (mkEv 1 0 0); LWalWrite; LStore (mkEv 2 0 0); LWalWrite].
+  split; [reflexivity|]. split; [vm_compute; reflexivity|].
+  split; [vm_compute; reflexivity|]. split; [vm_compute; reflexivity|].
+  split; [vm_compute; discriminate|]. split; [vm_compute; discriminate|vm_compute; discriminate].
+Qed.
+
+(** ** non-vacuity: two lifetimes, cap 3, partial memtable at the kill, then two rotations *)
+
+Module QTraces.
+  Import Traces.
+  Definition flush0 (k : N) : list label := [fb; fm; fw0; fi; fp; fc; wd k; fx; fd].
+  (** first lifetime: one full rotation (flushed), two more events; kill; restart;
+      second lifetime: four more events = rotations 1 and 2 (both flushed), one event left *)
+  Definition two_lifetimes : list label :=
+    [S 1; W; S 2; W; S 3; W; Wr] ++ flush0 0 ++ [S 4; W; S 5; W] ++ [K; T] ++
+    [S 6; W; Wr] ++ flush0 1 ++ [S 7; W; S 8; W; S 9; W; Wr] ++ flush0 2 ++ [S 10; W].
+End QTraces.
+
+Example lockstep_q_nonvacuous :
+  exists c ls e, 0 < c /\ lockstep_q (init c) ls = true /\ one_lifetime ls = false /\
+    NoDup (map ek (stored ls)) /\ In e (durable ls) /\
+    quiescentb (run (init c) ls) = true /\
+    alloc0 (run (init c) ls) = 3 /\ wcur (run (init c) ls) = 3 /\ len (mem (run (init c) ls)) = 1 /\
+    len (select (restart (crash (run (init c) ls))) 0) = 10.
+Proof.
+  exists 3, QTraces.two_lifetimes, (Traces.E 5).
+  split; [reflexivity|]. split; [vm_compute; reflexivity|]. split; [vm_compute; reflexivity|].
+  split; [apply nodupb_NoDup; vm_compute; reflexivity|]. split; [apply inb_In; vm_compute; reflexivity|].
+  repeat split; vm_compute; reflexivity.
+Qed.
+
+(** the kill in that trace hits a partly filled memtable *)
+Example quiescent_kill_nonvacuous :
+  exists c ls, 0 < c /\ lockstep_q (init c) ls = true /\ quiescentb (run (init c) ls) = true /\
+    len (mem (run (init c) ls)) = 2 /\ wcnt (run (init c) ls) = 2 /\ alloc0 (run (init c) ls) = 1.
+Proof.
+  exists 3, ([Traces.S 1; Traces.W; Traces.S 2; Traces.W; Traces.S 3; Traces.W; Traces.Wr] ++ QTraces.flush0 0 ++
+             [Traces.S 4; Traces.W; Traces.S 5; Traces.W]).
+  split; [reflexivity|]. repeat split; vm_compute; reflexivity.
+Qed.
